@@ -52,6 +52,7 @@ pub struct Rep {
 
 thread_local! {
     static LAST_PANIC: RefCell<Option<String>> = const { RefCell::new(None) };
+    static IN_GUARD: std::cell::Cell<u32> = const { std::cell::Cell::new(0) };
 }
 
 pub fn install_panic_hook() {
@@ -72,13 +73,20 @@ pub fn install_panic_hook() {
         if msg.contains("unsafe precondition") || msg.contains("cannot unwind") || msg.contains("misaligned") {
             eprintln!("VH-UB-CHECK {}", text);
         }
+        // a panic outside `guard` is a defect of the harness itself: never silent
+        if IN_GUARD.with(|g| g.get()) == 0 {
+            eprintln!("VH-HARNESS-PANIC {}", text);
+        }
         LAST_PANIC.with(|p| *p.borrow_mut() = Some(text));
     }));
 }
 
 /// Run a call into the crate under test; an unwinding panic becomes Err(description).
 pub fn guard<T>(f: impl FnOnce() -> T) -> Result<T, String> {
-    match std::panic::catch_unwind(std::panic::AssertUnwindSafe(f)) {
+    IN_GUARD.with(|g| g.set(g.get() + 1));
+    let r = std::panic::catch_unwind(std::panic::AssertUnwindSafe(f));
+    IN_GUARD.with(|g| g.set(g.get() - 1));
+    match r {
         Ok(v) => Ok(v),
         Err(_) => Err(LAST_PANIC
             .with(|p| p.borrow_mut().take())
